@@ -4,7 +4,11 @@ package unary
 
 import (
 	"context"
+	"sync/atomic"
 
+	"github.com/synnaxlabs/cesium/internal/channel"
+	"github.com/synnaxlabs/cesium/internal/domain"
+	"github.com/synnaxlabs/cesium/internal/index"
 	"github.com/synnaxlabs/x/telem"
 )
 
@@ -100,6 +104,77 @@ func VerifC10UnarySteps() {
 				verifAssert("prev-valid-iff-samples", valid == (len(got) > 0))
 				prevStart = v.Start
 			}
+		}
+	}
+	verifAssert("close", it.Close() == nil)
+	verifReach("end")
+}
+
+// VerifC10GappedWalk: a forward (or backward) walk of several steps with arbitrary spans over three gapped domains
+// (fixed layout, two samples each) returns at every step exactly the samples inside the reported view; consecutive
+// views are adjacent. The layout is concrete, the spans are symbolic.
+func VerifC10GappedWalk() {
+	mk := func(a, b int64) []byte {
+		var out []byte
+		for _, v := range []int64{a, b} {
+			var x [8]byte
+			telem.ByteOrder.PutUint64(x[:], uint64(v))
+			out = append(out, x[:]...)
+		}
+		return out
+	}
+	specs := []domain.VerifDomainSpec{
+		{Start: 10, End: 15, Data: mk(10, 14)},
+		{Start: 30, End: 35, Data: mk(30, 34)},
+		{Start: 50, End: 55, Data: mk(50, 54)},
+	}
+	all := []telem.TimeStamp{10, 14, 30, 34, 50, 54}
+	ddb := domain.VerifBuildDB(specs)
+	ch := channel.Channel{Key: 1, Name: "idx", IsIndex: true, Index: 1, DataType: telem.TimeStampT}
+	db := &DB{domain: ddb, closed: &atomic.Bool{}, leadingAlignment: &atomic.Uint32{}, wrapError: func(err error) error { return err },
+		resolver: newOffsetResolver(ch.DataType, ddbInstr()), cfg: Config{Channel: ch}}
+	db.idx = &index.Domain{DB: ddb, Channel: ch}
+	ctx := context.Background()
+	b := telem.TimeRange{Start: 0, End: 100}
+	it, err := db.OpenIterator(IterRange(b))
+	verifAssume(err == nil)
+	steps := verifParam("steps", 3)
+	if verifBool("forward") {
+		verifAssume(it.SeekFirst(ctx))
+		prevEnd := it.View().End
+		for k := 0; k < steps; k++ {
+			span := telem.TimeSpan(verifInt64("span"))
+			verifAssume(span > 0 && span <= 60)
+			valid := it.Next(ctx, span)
+			v := it.View()
+			if prevEnd != b.End {
+				verifAssert("walk-next-adjacent", v.Start == prevEnd)
+			}
+			got := verifFrameStamps(it)
+			verifObserve("view.start", int64(v.Start))
+			verifObserve("view.end", int64(v.End))
+			for _, g := range got {
+				verifObserve("got", int64(g))
+			}
+			verifAssert("walk-next-exact", verifHExactly(got, all, v))
+			verifAssert("walk-next-valid-iff-samples", valid == (len(got) > 0))
+			prevEnd = v.End
+		}
+	} else {
+		verifAssume(it.SeekLast(ctx))
+		prevStart := it.View().Start
+		for k := 0; k < steps; k++ {
+			span := telem.TimeSpan(verifInt64("span"))
+			verifAssume(span > 0 && span <= 60)
+			valid := it.Prev(ctx, span)
+			v := it.View()
+			if prevStart != b.Start {
+				verifAssert("walk-prev-adjacent", v.End == prevStart)
+			}
+			got := verifFrameStamps(it)
+			verifAssert("walk-prev-exact", verifHExactly(got, all, v))
+			verifAssert("walk-prev-valid-iff-samples", valid == (len(got) > 0))
+			prevStart = v.Start
 		}
 	}
 	verifAssert("close", it.Close() == nil)
